@@ -464,6 +464,8 @@ FAMILIES = [
     ["zoo_ver::ChoV1", "zoo_ver::ChoV2", "zoo_ver::ChoV3"],
     ["zoo_ver::EnuV1", "zoo_ver::EnuV2", "zoo_ver::EnuV3"],
     ["zoo_ver::WrapV1", "zoo_ver::WrapV2", "zoo_ver::WrapV3"],
+    # SET whose later addition has a lower tag than an earlier one
+    ["zoo_ver::SetV1", "zoo_ver::SetV2"],
 ]
 
 
@@ -574,6 +576,12 @@ class CrossVersion(UperBase):
         if fn is widen:
             return widen(val, small_or_w, other)
         return strip_to_root(val, small_or_w, other)
+
+    def finding_class(self, req, ans):
+        items = uperlib.split_sx(req.split(" ", 2)[2])
+        if items[0].startswith("zoo_ver::SetV"):
+            return "uper.set_additions_sorted"
+        return None
 
     def tag(self, req, ans):
         items = uperlib.split_sx(req.split(" ", 2)[2])
